@@ -28,6 +28,20 @@ def generated_corpus():
     return out
 
 
+CORPUS2_SEEDS = list(range(2000, 2004))
+PER_SEED2 = 60
+
+
+def generated_corpus2():
+    out = []
+    for s in CORPUS2_SEEDS:
+        r = random.Random(s)
+        for _ in range(PER_SEED2):
+            src, fam = progen.program2(r)
+            out.append((oracles.sha(src), src, fam))
+    return out
+
+
 def example_corpus():
     return [(oracles.sha(s), s, "repo-example") for s in oracles.repo_examples() if oracles.runnable(s)]
 
@@ -64,7 +78,7 @@ def key(sha, opts, extra=""):
 def behaviour_cases(ctx, quick_n):
     gen = generated_corpus()
     ex = example_corpus()
-    items = pick(gen, ctx, quick_n) + pick(ex, ctx, quick_n // 3)
+    items = pick(gen, ctx, quick_n) + pick(generated_corpus2(), ctx, quick_n // 2) + pick(ex, ctx, quick_n // 3)
     cases = []
     r = ctx.rng("opts")
     for (sha, src, fam) in items:
@@ -149,7 +163,7 @@ def rules_suite(ctx, quick_n=120):
     s = Suite("C02-rule-sweep", kind="oracle")
     base = baseline("C02")
     rules = rule_names()
-    items = pick(generated_corpus(), ctx, quick_n) + pick(example_corpus(), ctx, quick_n // 2)
+    items = pick(generated_corpus(), ctx, quick_n) + pick(generated_corpus2(), ctx, quick_n // 2) + pick(example_corpus(), ctx, quick_n // 2)
     results = oracles.pmap(task_rules, [(src, rules, fam == "repo-example") for (_sha, src, fam) in items])
     fired = {}
     for (sha, src, fam), res in zip(items, results):
@@ -197,8 +211,38 @@ ADVERSARIAL = [
 ]
 
 
+def whitespace_inputs():
+    """valid modules with odd layout: tab / mixed indentation (kept only if CPython accepts them), long runs of blank lines,
+    trailing blanks, imports inside functions followed by multi-line strings, CR / CRLF line ends, form feeds"""
+    out = []
+    indents = ["\t", "\t\t", "  \t", " \t", "    \t", "\t  ", "        ", "  \t\t\t"]
+    for a in indents:
+        for b in indents:
+            out.append(f"def f(x):\n{a}if x:\n{b}return 1\n{a}return 2\n\n\nprint(f(0), f(1))\n")
+            out.append(f"if True:\n{a}y = 1\n{a}for i in range(2):\n{b}y += i\n{a}print(y)\n")
+    for n in (3, 10, 26, 40, 120):
+        out.append("x = 1\nprint(x)" + "\n" * n)
+        out.append("x = 1" + "\n" * n + "print(x)\n")
+        out.append("def f():\n    return 1" + "\n    " * n + "\nprint(f())\n")
+        out.append("x = 1" + " " * n + "\nprint(x)" + "\t" * n + "\n")
+        out.append("x = [" + ", ".join(str(i) for i in range(n)) + "]\nprint(len(x))\n")
+    out.append('def usage():\n    import textwrap\n    text = """\nusage: prog [options]\n  -h  help\n"""\n    return textwrap.dedent(text)\n\n\nprint(usage())\n')
+    out.append('def main():\n    import mypkg_not_installed.templates as t\n    banner = """\nBANNER\nline two\n"""\n    return banner\n')
+    out.append("x = 1\r\ny = 2\r\nprint(x + y)\r\n")
+    out.append("x = 1\ry = 2\rprint(x + y)\r")
+    out.append("def a():\n    return 1\n\x0c\ndef b():\n    return 2\n\n\nprint(a() + b())\n")
+    keep = []
+    for s_ in out:
+        try:
+            compile(s_, "<ws>", "exec")
+            keep.append(s_)
+        except (SyntaxError, ValueError):
+            pass
+    return keep
+
+
 def total_cases(ctx, quick_n=150):
-    gen = pick(generated_corpus(), ctx, quick_n)
+    gen = pick(generated_corpus(), ctx, quick_n) + pick(generated_corpus2(), ctx, quick_n // 3) + [(oracles.sha(x), x, "whitespace") for x in whitespace_inputs()]
     ex_all = [(oracles.sha(s), s, "repo-example") for s in oracles.repo_examples()]
     ex = pick(ex_all, ctx, quick_n)
     adv = [(oracles.sha(s), s, "adversarial") for s in ADVERSARIAL]
@@ -260,7 +304,7 @@ def total_suite(ctx, prop, quick_n=150):
 def converge_suite(ctx, quick_n=100):
     s = Suite("C09-iteration-sweep", kind="oracle")
     base = baseline("C09")
-    items = pick(generated_corpus(), ctx, quick_n) + pick([(oracles.sha(x), x, "repo-example") for x in oracles.repo_examples()], ctx, quick_n)
+    items = pick(generated_corpus(), ctx, quick_n) + pick(generated_corpus2(), ctx, quick_n) + pick([(oracles.sha(x), x, "repo-example") for x in oracles.repo_examples()], ctx, quick_n)
     r = ctx.rng("c09-opts")
     cases = []
     for (sha, src, fam) in items:
